@@ -345,3 +345,41 @@ def list_at(ex, st, lst, i):
 def list_len(ex, st, lst):
     a = ex.term(lst, 'R')
     return SV(z3.If(a == 0, 0, ex.H(st, 'Ll')[a]), INT)
+
+
+@specfunc('substr_from')
+def substr_from(ex, st, s, a):
+    t = ex.term(s, 'S')
+    i = ex.term(a, 'I')
+    n = z3.Length(t)
+    lo = z3.If(i > n, n, i)
+    return SV(z3.SubString(t, lo, n - lo), STR)
+
+
+@specfunc('int_ok')
+def int_ok(ex, st, s):
+    return SV(ex.uf('int_ok', StrS, BoolS)(ex.term(s, 'S')), BOOL)
+
+
+@specfunc('int_val')
+def int_val(ex, st, s):
+    return SV(ex.uf('int_val', StrS, IntS)(ex.term(s, 'S')), INT)
+
+
+@specfunc('seg_last_ok')
+def seg_last_ok(ex, st, el, obj):
+    """open-ended bookkeeping: Segment._last_child_index of `el` is unchanged, or was raised to the field number of
+    `obj` (int(obj.name[4:])); no other element's counter changes.  Postconditions only."""
+    pre = ex.spec_ctx['pre']
+    key = 'f.Segment._last_child_index'
+    new, old = ex.H(st, key), ex.H(pre, key)
+    e = ex.term(el, 'R')
+    nm = ex.term(SV(ex.H(pre, 'f.Element.name')[ex.term(obj, 'R')], Opt(STR)), 'V')
+    s = Val.sval(nm)
+    ln = z3.Length(s)
+    tail = z3.SubString(s, z3.If(ln < 4, ln, 4), ln - z3.If(ln < 4, ln, 4))
+    n = ex.uf('int_val', StrS, IntS)(tail)
+    a = z3.FreshConst(IntS, 'sl')
+    flag = ex.H(pre, 'f.Segment.allow_infinite_children')[e]
+    return SV(z3.And(z3.Or(new[e] == old[e], z3.And(flag, Val.is_VStr(nm), ln > 0, new[e] == n, n > old[e])),
+                     z3.ForAll([a], z3.Implies(a != e, new[a] == old[a]))), BOOL)
